@@ -399,6 +399,158 @@ def toys_module(which: str) -> types.ModuleType:
     return _MODULES[which]
 
 
+# ---- families: actor classes related to each other (inheritance chains, shared origins / functions) -------------------
+CHAIN_ROOT_SRC = r"""
+class ChainRoot(_Fixed, flow.Actor):
+    _trains = False
+
+    def apply(self, x):
+        if self._trains:
+            return _Fixed.predict(self, x)
+        return applyfn0(self.get_params(), x)
+"""
+
+SHARED_SRC = r"""
+class ShOriginA(_Stateless):
+    pass
+
+
+class ShOriginB(ShOriginA):
+    def __init__(self, a=1, b=0):
+        super().__init__(a, b)
+        self.s = None
+
+    fit = _Fixed.fit
+    predict = _Fixed.predict
+
+
+def shfn(x, *, a=1, b=0):
+    return applyfn0({'a': a, 'b': b}, x)
+
+
+def shtrain(state, x, y, *, a=1, b=0):
+    return trainfn({'a': a, 'b': b}, state, x, y)
+
+
+def shapply(state, x, *, a=1, b=0):
+    return applyfn({'a': a, 'b': b}, state, x)
+
+
+def _shfit(o, x, y):
+    return o.fit(x, y)
+
+
+ShWrapA = wrap.Actor.type(ShOriginA, apply='predict', train='fit')
+ShWrapB = wrap.Actor.type(ShOriginB, apply='predict', train='fit')
+ShWrapB0 = wrap.Actor.type(ShOriginB, apply=lambda o, x: applyfn0(o.get_params(), x))
+ShWrapBc = wrap.Actor.type(ShOriginB, apply='predict', train=_shfit)
+ShDeco1 = wrap.Actor.apply(shfn)
+ShDeco2 = wrap.Actor.apply(shfn)
+_shtrain = wrap.Actor.train(shtrain)
+ShPair1 = _shtrain.apply(shapply)
+ShPair2 = _shtrain.apply(shapply)
+ShPair3 = wrap.Actor.train(shtrain).apply(shapply)
+"""
+
+SHARED = {
+    'ShWrapA': ('wrapped', FIXED, 'absent', False, True),
+    'ShWrapB': ('wrapped', FIXED, 'method', True, True),
+    'ShWrapB0': ('wrapped', FIXED, 'absent', False, True),
+    'ShWrapBc': ('wrapped', FIXED, 'callable', True, True),
+    'ShDeco1': ('decorated', FIXED_KW, False, False, False),
+    'ShDeco2': ('decorated', FIXED_KW, False, False, False),
+    'ShPair1': ('decorated', FIXED_KW, True, True, False),
+    'ShPair2': ('decorated', FIXED_KW, True, True, False),
+    'ShPair3': ('decorated', FIXED_KW, True, True, False),
+}
+
+_FAMILY_COUNTER = [0]
+
+
+def _family_namespace() -> dict:
+    """a fresh unregistered namespace holding the toy helpers: everything defined in it is pickled by value"""
+    _FAMILY_COUNTER[0] += 1
+    ns = dict(toys_module('dyn').__dict__)
+    ns['__name__'] = f'c13_family_{_FAMILY_COUNTER[0]}'
+    return ns
+
+
+def chain_resolved(table: list, i: int, field: int) -> bool:
+    """spec side: the class or one of its ancestors defines the thing (field 1 = train, 2 = state methods)"""
+    while i is not None:
+        if table[i][field]:
+            return True
+        i = table[i][0]
+    return False
+
+
+def chain_source(table: list) -> str:
+    out = [CHAIN_ROOT_SRC]
+    for i, (base, own_train, own_state) in enumerate(table):
+        out.append(f'\n\nclass Chain{i}({"ChainRoot" if base is None else f"Chain{base}"}):')
+        out.append(f'    _trains = {chain_resolved(table, i, 1)}')
+        if own_train:
+            out.append('\n    def train(self, x, y):\n        _Fixed.fit(self, x, y)')
+        if own_state:
+            out.append('\n    def get_state(self):\n        return cloudpickle.dumps(self.__dict__)')
+            out.append('\n    def set_state(self, state):\n        if state:\n            self.__dict__.update(cloudpickle.loads(state))')
+    return '\n'.join(out) + '\n'
+
+
+class Family:
+    """Related actor classes defined together, freshly for every scenario (class-level state must not leak)."""
+
+    def __init__(self, spec: dict):
+        self.spec = spec
+        ns = _family_namespace()
+        sg = None
+        self.members: list[Toy] = []
+        self.prefixes: list[list] = []
+        if spec['kind'] == 'chain':
+            table = [tuple(r) for r in spec['table']]
+            exec(compile(chain_source(table), f'<{ns["__name__"]}>', 'exec'), ns)  # pylint: disable=exec-used
+            tbl = [['none' if b is None else b, bool(t), bool(st)] for b, t, st in table]
+            for i in range(len(table)):
+                trains = chain_resolved(table, i, 1)
+                custom = trains and chain_resolved(table, i, 2)
+                toy = Toy(f'Chain{i}', 'custom' if custom else 'native', FIXED, trains, trains, True, False)
+                sg = toy.flavour()[1]
+                self.members.append(toy)
+                self.prefixes.append(['runclass', sg, tbl, i])
+        else:
+            exec(compile(SHARED_SRC, f'<{ns["__name__"]}>', 'exec'), ns)  # pylint: disable=exec-used
+            for name in spec['names']:
+                kind, sig, flag, trains, store_all = SHARED[name]
+                toy = Toy(name, kind, sig, flag, trains, store_all, False)
+                self.members.append(toy)
+                self.prefixes.append(['run', toy.flavour()])
+        self.classes = [ns[t.name] for t in self.members]
+
+
+def run_family(fam: Family, scripts: list, order: list) -> list:
+    """one RealMachine per member; `order` = member index per step (each consumes the member's next op)"""
+    machines = [RealMachine(c, 'cloudpickle') for c in fam.classes]
+    obs: list = [[] for _ in fam.members]
+    for m in order:
+        obs[m].append(machines[m].step(scripts[m][len(obs[m])]))
+    return obs
+
+
+def ops_from_json(raw: list) -> list:
+    ops = [[({int(k): v for k, v in x} if isinstance(x, list) and x and isinstance(x[0], list) else x) for x in op]
+           for op in raw]
+    # an empty keyword list is indistinguishable from an empty positional list in JSON: positions decide
+    fixed = []
+    for op in ops:
+        op = list(op)
+        if op[0] in ('spec', 'update', 'reset', 'setparams', 'forge'):
+            op[2] = op[2] if isinstance(op[2], dict) else {}
+        elif op[0] == 'build':
+            op[3] = op[3] if isinstance(op[3], dict) else {}
+        fixed.append(op)
+    return fixed
+
+
 # ---- spec-side arithmetic (the oracle's own copy, written from the toy definitions) -----------------
 def _g(p, k, d):
     return p.get(k, d)
@@ -435,95 +587,94 @@ def canon_exc(e: BaseException) -> tuple:
     return ('err', type(e).__name__)
 
 
-def run_real(toy: Toy, module: str, pickler: str, ops: list) -> list:
-    """Interpret the scenario script on the real forml objects; one observation per op."""
-    import cloudpickle
-    from forml.flow._code.target import user
+class RealMachine:
+    """Interprets scenario ops on the real forml objects of ONE actor class (builder, 4 actor registers, 4 state blobs)."""
 
-    P = cloudpickle if pickler == 'cloudpickle' else pickle
-    cls = getattr(toys_module(module), toy.name)
-    builder = None
-    regs: list = [None] * 4
-    blobs: list = [b''] * 4
-    out = []
-    for op in ops:
-        o = op[0]
+    def __init__(self, cls, pickler: str):
+        import cloudpickle
+
+        self.P = cloudpickle if pickler == 'cloudpickle' else pickle
+        self.cls = cls
+        self.builder = None
+        self.regs: list = [None] * 4
+        self.blobs: list = [b''] * 4
+
+    def step(self, op: list) -> tuple:
         try:
-            if o == 'spec':
-                builder = cls.builder(*op[1], **pyk(op[2]))
-                out.append(('ok',))
-            elif o in ('update', 'reset'):
-                if builder is None:
-                    out.append(('err', 'NoObject'))
-                    continue
-                builder = getattr(builder, o)(*op[1], **pyk(op[2]))
-                out.append(('ok',))
-            elif o == 'bpickle':
-                if builder is None:
-                    out.append(('err', 'NoObject'))
-                    continue
-                builder = P.loads(P.dumps(builder))
-                out.append(('ok',))
-            elif o == 'build':
-                if builder is None:
-                    out.append(('err', 'NoObject'))
-                    continue
-                regs[op[1]] = builder(*op[2], **pyk(op[3]))
-                out.append(('ok',))
-            elif o == 'stateful':
-                out.append(('ok', bool(cls.is_stateful())))
-            elif o == 'forge':
-                # somebody else's non-empty state: an attribute dict (only given to actors without training)
-                blobs[op[1]] = cloudpickle.dumps({**pyk(op[2]), 's': None})
-                out.append(('ok',))
-            elif o in ('fapply', 'ftrain'):
-                if builder is None:
-                    out.append(('err', 'NoObject'))
-                    continue
-                if o == 'fapply':
-                    res = user.Functor(builder, user.Apply()).preset_state().execute(blobs[op[1]], op[2])
-                    out.append(('ok', int(res)))
-                else:
-                    res = user.Functor(builder, user.Train()).preset_state().execute(blobs[op[1]], op[2], op[3])
-                    blobs[op[4]] = res
-                    out.append(('ok', 'full' if res else 'empty'))
-            else:
-                actor = regs[op[1]]
-                if actor is None:
-                    out.append(('err', 'NoObject'))
-                    continue
-                if o == 'train':
-                    actor.train(op[2], op[3])
-                    out.append(('ok',))
-                elif o == 'apply':
-                    out.append(('ok', int(actor.apply(op[2]))))
-                elif o == 'params':
-                    out.append(('ok', {KIDX[k]: int(v) for k, v in actor.get_params().items()}))
-                elif o == 'setparams':
-                    actor.set_params(**pyk(op[2]))
-                    out.append(('ok',))
-                elif o == 'getstate':
-                    blobs[op[2]] = actor.get_state()
-                    out.append(('ok', 'full' if blobs[op[2]] else 'empty'))
-                elif o == 'setstate':
-                    actor.set_state(blobs[op[2]])
-                    out.append(('ok',))
-                elif o == 'setempty':
-                    actor.set_state(b'')
-                    out.append(('ok',))
-                elif o == 'preset':
-                    user.SetState(user.Apply()).reduce(actor, blobs[op[2]])
-                    out.append(('ok',))
-                elif o == 'pickle':
-                    regs[op[1]] = P.loads(P.dumps(actor))
-                    out.append(('ok',))
-                else:
-                    raise fw.MachineryError(f'unknown op {op}')
+            return self._step(op)
         except fw.MachineryError:
             raise
         except Exception as e:  # pylint: disable=broad-except
-            out.append(canon_exc(e))
-    return out
+            return canon_exc(e)
+
+    def _step(self, op: list) -> tuple:  # pylint: disable=too-many-return-statements,too-many-branches
+        import cloudpickle
+        from forml.flow._code.target import user
+
+        P, cls, regs, blobs = self.P, self.cls, self.regs, self.blobs
+        o = op[0]
+        if o == 'spec':
+            self.builder = cls.builder(*op[1], **pyk(op[2]))
+            return ('ok',)
+        if o == 'stateful':
+            return ('ok', bool(cls.is_stateful()))
+        if o == 'forge':
+            # somebody else's non-empty state: an attribute dict (only given to actors without training)
+            blobs[op[1]] = cloudpickle.dumps({**pyk(op[2]), 's': None})
+            return ('ok',)
+        if o in ('update', 'reset', 'bpickle', 'build', 'fapply', 'ftrain'):
+            if self.builder is None:
+                return ('err', 'NoObject')
+            if o in ('update', 'reset'):
+                self.builder = getattr(self.builder, o)(*op[1], **pyk(op[2]))
+                return ('ok',)
+            if o == 'bpickle':
+                self.builder = P.loads(P.dumps(self.builder))
+                return ('ok',)
+            if o == 'build':
+                regs[op[1]] = self.builder(*op[2], **pyk(op[3]))
+                return ('ok',)
+            if o == 'fapply':
+                res = user.Functor(self.builder, user.Apply()).preset_state().execute(blobs[op[1]], op[2])
+                return ('ok', int(res))
+            res = user.Functor(self.builder, user.Train()).preset_state().execute(blobs[op[1]], op[2], op[3])
+            blobs[op[4]] = res
+            return ('ok', 'full' if res else 'empty')
+        actor = regs[op[1]]
+        if actor is None:
+            return ('err', 'NoObject')
+        if o == 'train':
+            actor.train(op[2], op[3])
+            return ('ok',)
+        if o == 'apply':
+            return ('ok', int(actor.apply(op[2])))
+        if o == 'params':
+            return ('ok', {KIDX[k]: int(v) for k, v in actor.get_params().items()})
+        if o == 'setparams':
+            actor.set_params(**pyk(op[2]))
+            return ('ok',)
+        if o == 'getstate':
+            blobs[op[2]] = actor.get_state()
+            return ('ok', 'full' if blobs[op[2]] else 'empty')
+        if o == 'setstate':
+            actor.set_state(blobs[op[2]])
+            return ('ok',)
+        if o == 'setempty':
+            actor.set_state(b'')
+            return ('ok',)
+        if o == 'preset':
+            user.SetState(user.Apply()).reduce(actor, blobs[op[2]])
+            return ('ok',)
+        if o == 'pickle':
+            regs[op[1]] = P.loads(P.dumps(actor))
+            return ('ok',)
+        raise fw.MachineryError(f'unknown op {op}')
+
+
+def run_real(toy: Toy, module: str, pickler: str, ops: list) -> list:
+    """Interpret the scenario script on the real forml objects; one observation per op."""
+    m = RealMachine(getattr(toys_module(module), toy.name), pickler)
+    return [m.step(op) for op in ops]
 
 
 def obs_sexp(ob: tuple):
@@ -629,8 +780,17 @@ class C13(fw.Check):
             'non-empty state, set_params, pickling. Every op\'s observation is compared with the Lean model; the oracle '
             'checks expected values computed from the toy arithmetic and relational checks (transfer, precedence, empty '
             'state, pickle, is_stateful). Plus a random op-stream incl. malformed ops (unknown keys, non-hyper-parameter '
-            'keys, positional overflow, state on stateless, untrained apply). distinct = (toy, ops); non-trivial = at least '
-            'one training step and one state transfer, or (stateless) one parameter change.')
+            'keys, positional overflow, state on stateless, untrained apply). FAMILIES of related actor classes, defined '
+            'freshly per scenario: native inheritance chains of 2-5 classes (random base links; each class body may define '
+            'train and/or its own state methods; stateless base -> stateful subclass -> sub-subclass, stateful base -> '
+            'subclass overriding train) and definitions sharing origins (wrap.Actor.type over an origin class and its '
+            'subclass with name / callable / defaulted train mappings; two @wrap.Actor.apply of one function; pairs sharing '
+            'one train decorator): one structured or random script per member, interleaved in chunks in a random order '
+            '(for half of them a leading is_stateful() round over all classes in a random permutation), so that the first '
+            'query of related classes happens in either order; each member\'s projection is compared with the model '
+            '(the flavour of a chain class is resolved by the model from the class table) and checked by the same oracle. '
+            'distinct = (toy, ops) resp. (family, order, scripts); non-trivial = at least one training step and one state '
+            'transfer, or (stateless) one parameter change; family: at least two related classes.')
     TRUSTED = [
         'cloudpickle / pickle fidelity for plain attribute dicts (modelled as identity), inspect.signature binding rules '
         '(modelled by bind/bindPartial for the signature shapes used), functools.update_wrapper metadata, '
@@ -649,7 +809,7 @@ class C13(fw.Check):
         'an actor with user-written state methods that preserve nothing is protected by the platform path '
         '(SetState.set) only; precedence on a direct set_state call is demanded only of forml\'s own state methods',
         'wrapped flavour is modelled with the repairs of Class.__new__ (empty mapping, c5871cf), Class.Actor.is_stateful '
-        '(callable check, 146ab51) and of the copyreg reducer (constructor arguments, fixes/C13-wrapped-pickle-ctor-args.diff) '
+        '(callable check, 146ab51) and of the copyreg reducer (constructor arguments, e52a412) '
         'applied',
     ]
 
@@ -669,7 +829,11 @@ class C13(fw.Check):
         out.update(kw)
         return out
 
+    _forced_site = None
+
     def _pick_site(self, toy: Toy):
+        if self._forced_site:
+            return self._forced_site
         module = self.rng.choice(['imp', 'dyn'])
         pickler = 'pickle' if (module == 'imp' and toy.std_pickle and self.rng.random() < 0.5) else 'cloudpickle'
         return module, pickler
@@ -1056,6 +1220,111 @@ class C13(fw.Check):
                         self.violate(f'{sc.toy.name} ({sc.toy.kind}, {sc.module}/{sc.pickler}): {chk[-2]}: {fail}',
                                      sc.witness(chk), sig)
 
+    # ---- families ----------------------------------------------------------------------------------------------
+    def _family_spec(self) -> dict:
+        rng = self.rng
+        if rng.random() < 0.7:
+            n = rng.randint(2, 5)
+            table = []
+            for i in range(n):
+                base = None if i == 0 or rng.random() < 0.25 else rng.randrange(i)
+                own_train = rng.random() < 0.45
+                resolved = own_train or (base is not None and chain_resolved(table, base, 1))
+                own_state = resolved and rng.random() < 0.2
+                table.append([base, own_train, own_state])
+            return {'kind': 'chain', 'table': table}
+        names = rng.sample(sorted(SHARED), rng.randint(2, 4))
+        return {'kind': 'shared', 'names': names}
+
+    def _family_scenario(self, spec: typing.Optional[dict] = None) -> dict:
+        """one structured or random script per member, interleaved in chunks in a random order: in particular the
+        first is_stateful query (direct, or through get_state/set_state) of related classes comes in either order."""
+        rng = self.rng
+        spec = spec or self._family_spec()
+        fam = Family(spec)
+        self._forced_site = ('dyn', 'cloudpickle')
+        try:
+            scs = [(self._structured(t) if rng.random() < 0.75 else self._random_scenario(t)) for t in fam.members]
+        finally:
+            self._forced_site = None
+        # class-level queries in a random order first (for about half of the families), then chunks
+        order: list = []
+        left = [len(sc.ops) for sc in scs]
+        if rng.random() < 0.5:
+            perm = list(range(len(scs)))
+            rng.shuffle(perm)
+            for sc in scs:
+                sc.ops.insert(0, ['stateful'])
+                sc.checks = [self._shift(c) for c in sc.checks]
+                sc.val(0, sc.toy.trains, 'is_stateful() does not say whether the definition has a training implementation',
+                       'stateful-mismatch')
+            left = [len(sc.ops) - 1 for sc in scs]
+            order.extend(perm)
+        while any(left):
+            m = rng.choice([i for i, n in enumerate(left) if n])
+            k = min(left[m], rng.randint(1, 8))
+            order.extend([m] * k)
+            left[m] -= k
+        return {'family': fam, 'scripts': scs, 'order': order}
+
+    @staticmethod
+    def _shift(chk: list) -> list:
+        chk = list(chk)
+        chk[1] += 1
+        if chk[0] in ('same', 'applyp'):
+            chk[2] += 1
+        return chk
+
+    @staticmethod
+    def _family_witness(fs: dict, member=None, check=None) -> dict:
+        return {'family': fs['family'].spec, 'order': fs['order'],
+                'scripts': [[op_sexp(o) for o in sc.ops] for sc in fs['scripts']], 'member': member, 'check': check}
+
+    def _run_families(self, families: list, oracle: bool = True, compare: bool = True) -> None:
+        lines, owners = [], []
+        for fi, fs in enumerate(families):
+            for m, sc in enumerate(fs['scripts']):
+                lines.append(sexp.dumps(fs['family'].prefixes[m] + [op_sexp(o) for o in sc.ops]))
+                owners.append((fi, m))
+        answers = dict(zip(owners, self.model(lines))) if compare else {}
+        for fi, fs in enumerate(families):
+            fam, scs = fs['family'], fs['scripts']
+            obs = run_family(fam, [sc.ops for sc in scs], fs['order'])
+            related = fam.spec['kind'] == 'shared' or any(r[0] is not None for r in fam.spec['table'])
+            self.case((repr(fam.spec), tuple(fs['order']), tuple(repr(sc.ops) for sc in scs)),
+                      f'family {fam.spec["kind"]} of {len(scs)}', related,
+                      sample={'family': fam.spec, 'members': [t.name for t in fam.members], 'ops': len(fs['order']),
+                              'order_head': fs['order'][:12]})
+            for m, sc in enumerate(scs):
+                for ob in obs[m]:
+                    if ob[0] == 'err':
+                        self.errors_hit[ob[1]] += 1
+                if compare:
+                    impl = sexp.dumps(['ok'] + [obs_sexp(o) for o in obs[m]])
+                    ans = answers[(fi, m)]
+                    if impl != ans:
+                        mo = sexp.loads(ans) if ans != 'bad-op' else 'bad-op'
+                        io = sexp.loads(impl)
+                        idx = next((i for i, (a, b) in enumerate(zip(io[1:], mo[1:] if isinstance(mo, list) else [])) if a != b), None)
+                        self.diverge(f'family member {sc.toy.name} of {fam.spec}: observation of op #{idx} '
+                                     f'{sc.ops[idx] if idx is not None else ""}', self._family_witness(fs, m),
+                                     io[1:][idx] if idx is not None else impl, (mo[1:][idx] if idx is not None else ans))
+                if oracle:
+                    for chk in sc.checks:
+                        fail = eval_check(chk, obs[m])
+                        if fail:
+                            self.violate(f'{sc.toy.name} ({sc.toy.kind}) in family {fam.spec}, classes used in the order '
+                                         f'{self._first_use(fs["order"])}: {chk[-2]}: {fail}',
+                                         self._family_witness(fs, m, chk), self._signature(sc, chk, obs[m]))
+
+    @staticmethod
+    def _first_use(order: list) -> list:
+        seen: list = []
+        for m in order:
+            if m not in seen:
+                seen.append(m)
+        return seen
+
     def _structured(self, toy: Toy) -> Scenario:
         if not toy.trains:
             return self._stateless_scenario(toy)
@@ -1079,36 +1348,55 @@ class C13(fw.Check):
             scenarios.append(self._random_scenario(self.rng.choice(TOYS)))
         for i in range(0, len(scenarios), 500):
             self._run_batch(scenarios[i:i + 500])
+        # related actor classes: hand-picked chains first (stateless base -> stateful subclass -> sub-subclass; stateful
+        # base -> subclass overriding train / adding state methods; all shared-origin definitions), then random ones
+        corpus = [{'kind': 'chain', 'table': [[None, False, False], [0, True, False], [1, False, False]]},
+                  {'kind': 'chain', 'table': [[None, True, False], [0, True, False], [0, False, True], [None, False, False]]},
+                  {'kind': 'shared', 'names': ['ShWrapA', 'ShWrapB', 'ShWrapB0', 'ShWrapBc']},
+                  {'kind': 'shared', 'names': ['ShDeco1', 'ShPair1', 'ShDeco2', 'ShPair2', 'ShPair3']}]
+        families = [self._family_scenario(spec) for spec in corpus for _ in range(3)]
+        families += [self._family_scenario() for _ in range(self.n(160, 2000))]
+        for i in range(0, len(families), 100):
+            self._run_families(families[i:i + 100])
         self.extra['error_kinds_hit'] = dict(self.errors_hit)
 
     def search(self, reason):
         """Widen around the diverging definitions: more structured scenarios, oracle on the real code."""
-        names = {d.case['toy'] for d in self.divergences if isinstance(d.case, dict) and 'toy' in d.case} or set(TOY)
+        names = {d.case['toy'] for d in self.divergences if isinstance(d.case, dict) and 'toy' in d.case}
+        if not names and not any(isinstance(d.case, dict) and 'family' in d.case for d in self.divergences):
+            names = set(TOY)
         scenarios = [self._structured(TOY[n]) for n in sorted(names) for _ in range(40)]
         scenarios += [self._stateful_scenario(TOY[n], zero=True) for n in sorted(names) if TOY[n].trains for _ in range(4)]
         before = len(self.violations)
         self._run_batch(scenarios, oracle=True, compare=False)
+        if any(isinstance(d.case, dict) and 'family' in d.case for d in self.divergences):
+            fams = [self._family_scenario(d.case['family']) for d in self.divergences
+                    if isinstance(d.case, dict) and 'family' in d.case][:60]
+            fams += [self._family_scenario() for _ in range(60)]
+            self._run_families(fams, oracle=True, compare=False)
         self.notes.append(f'failing-input search ({reason}): {len(scenarios)} structured scenarios on {sorted(names)}, '
                           f'{len(self.violations) - before} oracle failures')
 
     def replay_finding(self, entry):
         w = entry['witness']
-        toy = TOY[w['toy']]
-        ops = [[({int(k): v for k, v in x} if isinstance(x, list) and x and isinstance(x[0], list) else x) for x in op]
-               for op in w['ops']]
-        # an empty keyword list is indistinguishable from an empty positional list in JSON: positions decide
-        fixed = []
-        for op in ops:
-            op = list(op)
-            if op[0] in ('spec', 'update', 'reset'):
-                op[2] = op[2] if isinstance(op[2], dict) else {}
-            elif op[0] == 'build':
-                op[3] = op[3] if isinstance(op[3], dict) else {}
-            elif op[0] == 'setparams':
-                op[2] = op[2] if isinstance(op[2], dict) else {}
-            fixed.append(op)
-        obs = run_real(toy, w['module'], w['pickler'], fixed)
         chk = w.get('check')
+        if 'family' in w:
+            fam = Family(w['family'])
+            scripts = [ops_from_json(ops) for ops in w['scripts']]
+            obs = run_family(fam, scripts, w['order'])
+            if not chk or w.get('member') is None:
+                return None
+            m = w['member']
+            fail = eval_check(chk, obs[m])
+            if not fail:
+                return None
+            sc = Scenario(fam.members[m], 'dyn', 'cloudpickle')
+            sc.ops = scripts[m]
+            return fw.Violation(f'{fam.members[m].name} in family {w["family"]}: {chk[-2]}: {fail}', w,
+                                self._signature(sc, chk, obs[m]))
+        toy = TOY[w['toy']]
+        fixed = ops_from_json(w['ops'])
+        obs = run_real(toy, w['module'], w['pickler'], fixed)
         if not chk:
             return None
         fail = eval_check(chk, obs)
